@@ -1,5 +1,6 @@
 """C01 - the message pump cannot be crashed or tricked by input."""
 from harness import gwcheck
+from harness.impl import gwrun
 
 ID = "C01"
 PROP_FILE = "C01.v"
@@ -34,9 +35,34 @@ def run(ctx, res):
         st = r["stats"]
         if st.get("c01:line:accepted") and st.get("c01:line:rejected"):
             res.nontriv(r["case"]["id"])
+    # Independent judge of "not valid for the configured protocol version": the extracted hand-written serial
+    # API spec (Spec/SerialApi.v, proved equal to the modelled validation in C03) - NOT the implementation's
+    # own validator, which a defect may have corrupted.  A line it rejects must have had no effect.
+    if ctx.model is not None:
+        from harness.props import c05
+        items = [(i, gwrun.VERSIONS.index(r["case"]["cfg"]["ver"]), r["stats"].get("__notes__", {}).get("c01", []))
+                 for i, r in enumerate(recs)]
+        bad, n = c05.spec_check(ctx, [it for it in items if it[2]])
+        res.count("spec-judged-effective-lines", n)
+        for i, rej in bad.items():
+            c = recs[i]["case"]
+            line = rej[0][0]
+            res.violate("invalid-line-has-effect/by-spec",
+                        f"[{c['id']}] gateway version {c['cfg']['ver']}: line {line!r} is not valid for that version "
+                        f"(serial API spec) but had an effect (reply, event or state change)",
+                        {"cfg": c["cfg"], "ops": c["ops"], "monitors": ["c01"], "line": line})
     for r in recs[:3]:
         res.sample({"cfg": r["case"]["cfg"], "ops": r["case"]["ops"][:8], "n_ops": len(r["case"]["ops"])})
 
 
 def replay(ctx, case):
-    return gwcheck.replay_case(ctx, case)
+    out = gwcheck.replay_case(ctx, case)
+    c = case["case"] if "case" in case else case
+    if ctx.model is not None:
+        from harness.props import c05
+        _outs, _viol, stats = gwcheck.impl_case(dict(c, monitors=["c01"]))
+        bad, n = c05.spec_check(ctx, [(0, gwrun.VERSIONS.index(c["cfg"]["ver"]), stats.get("__notes__", {}).get("c01", []))])
+        out["effective_lines_judged_by_the_spec"] = n
+        out["effective_lines_the_spec_rejects"] = [b[0] for b in bad.get(0, [])]
+        out["violates"] = bool(out["violates"] or bad)
+    return out
